@@ -1319,7 +1319,7 @@ theorem gen_fix_clears_join_flag_and_aliases :
     "hfields[i].IsJoinColumn=false" ∈ Gen.fixHeaderEffects ∧ "hfields[i].Aliases=nil" ∈ Gen.fixHeaderEffects := by decide
 
 /-- the join-column flag is set only by `joinViews` and cleared only by `View.Fix`; aliases grow in `evalColumn` /
-    `AddHeaderField` and are cleared by `Fix` and `Header.Update` -/
+    `AddHeaderField` and are cleared by `Fix` and `Header.Update`; `Header.Copy` gives the copy alias lists of its own (F106) -/
 theorem gen_header_flag_writes_eq_ref : Gen.headerFlagWrites = Ref.headerFlagWrites := rfl
 
 /-- the order in which `loadObject` tries the kinds of object IS the model's `tableKind` -/
